@@ -3764,6 +3764,18 @@ func topicCat(name string) types.TopicCat {
 	return types.GetTopicCat(name)
 }
 
+// topicNameValid checks if the expanded topic name has a known prefix, i.e. if topicCat(name) is defined.
+func topicNameValid(name string) bool {
+	if len(name) < 3 {
+		return false
+	}
+	switch name[:3] {
+	case "usr", "p2p", "grp", "chn", "fnd", "sys":
+		return true
+	}
+	return false
+}
+
 // Generate the name of the group topic as a "grp" followed by random-looking
 // unique string.
 func genTopicName() string {
